@@ -39,7 +39,23 @@ func c15Campaign(tier string, seed int64, only int, race bool) *campaign {
 		}
 		return pipe.AllVariants
 	}
-	cp.Make = func(r *rand.Rand, i int) *spec.Grammar { return mixedGrammar(r, i+3) }
+	cp.Make = func(r *rand.Rand, i int) *spec.Grammar {
+		g := mixedGrammar(r, i+3)
+		if i%3 == 1 {
+			// nonterminals without a value tag (every second one, never the start symbol): their
+			// reductions carry no value, which is where generated code is tempted to share storage
+			for n := range g.NTs {
+				if n != g.Start && n%2 == 1 {
+					g.NTs[n].Tag = ""
+				}
+			}
+			for k := range g.Rules {
+				g.Rules[k].Act = spec.Act{}
+			}
+			g.DefaultActs()
+		}
+		return g
+	}
 	cp.Configure = func(c *gcase) {
 		r := caseRng(seed, "C15-orders", c.Idx)
 		n := len(c.Inputs)
@@ -127,7 +143,7 @@ func c15Campaign(tier string, seed int64, only int, race bool) *campaign {
 							o.count("eval:nested_outer_parses", 1)
 							g := lists[0][k]
 							if strings.HasPrefix(g.Verdict, "DIFFERS") || !sameResult(g, base[k], true) {
-								fail("a complete second parse (own context / PushContex-PopContex) ran inside GetToken ("+g.Msg+")", k, g)
+								fail("a complete second parse (own context / PushContex-PopContex) ran inside GetToken (at >= 0: token index) or inside an action (at < 0: reduction number) ("+g.Msg+")", k, g)
 								return
 							}
 						}
